@@ -188,6 +188,10 @@ def main(pid, explorer, deps_gen=(), extra_vo=(), assumptions=(), not_modelled='
             explorer(ctx, res, replay=None)
     except BuildError as e:
         build_err = str(e)
+    except Exception as e:                      # noqa: the explorer could not digest what a driver printed
+        import traceback
+        res.tie_broken.append({'what': 'the explorer could not interpret the output of the implementation or of the model (%s: %s)' % (type(e).__name__, e),
+                               'traceback': traceback.format_exc()[-1500:]})
     findings = vlib.known_findings()
     new_viol = []
     for v in res.violations:
@@ -223,7 +227,7 @@ def main(pid, explorer, deps_gen=(), extra_vo=(), assumptions=(), not_modelled='
     # evidence
     tb = ['Coq 8.16.1 kernel (coqc, vm_compute; no native_compute)',
           'extraction: ExtrOcamlBasic + ExtrOcamlString directives only; OCaml 4.13.1; ocaml/driver.ml',
-          'translators tools/translate.py (lexer rules, enums, constants, detector grammar)',
+          'translators tools/translate.py (lexer rules, enums, constants incl. the generator\'s initial position, detector grammar, flex tables of lex.yy.c, nm statics)',
           'correspondence harness: driver/impl_driver.cpp, generators, g++ 12, sanitizer runtimes',
           'hand-written model of the C++ (see DESIGN.md §2.3, §9)']
     for t, txt in pa:
